@@ -7,6 +7,7 @@ import os, sys
 sys.path.insert(0, os.path.join(os.path.dirname(os.path.dirname(os.path.abspath(__file__))), "models"))
 import pe as _pe
 import pgp as _pgp
+import macho as _macho
 
 TIE = "corr:c11"
 TIE_THEOREM = ("Relic.Model.{PE,ApkBlock,CsBlob,Binpatch} vs lib/authenticode, signers/apk, lib/fruit/csblob, lib/signxap, lib/binpatch "
@@ -39,6 +40,9 @@ UNPROVED = ["no_panic_full (∀ bs, every entry point returns ok/err): false on 
             "tree proved only for the modelled parsers (verifyGap_fixed_no_panic, verifyBlob_fixed_no_panic, removeSignature_fixed_no_panic, "
             "load_no_panic, readHeaders/DigestPE/locate_no_panic_partial); entry points without a model are exercised only",
             "alloc_bounded_full: proved for binpatch.Load (guarded) and VerifyPE (guarded) accounts only",
+            "macho_no_panic_full (parseCodeDirectory / PatchSignature / VerifyPages): false on the unchanged tree (witnesses in Props/C11_MachO.lean, "
+            "listed findings F12-panic-csblob.parseCodeDirectory, F12-panic-machos.PatchSignature); proved: scan_no_panic, "
+            "parseCodeDirectory_panic_only_if, parseCodeDirectory_no_panic_of_fit",
             "terminates_full for comdoc chain walks: false (no visited set): listed as known findings, not modelled"]
 IMPL_PARALLEL = 12
 IMPL_TIMEOUT = 3000
@@ -58,6 +62,8 @@ def canon_model(op, mres):
         return _pe.canon_model(op, mres)
     if _tok(op) == "PGP":
         return _pgp.canon_model(op, mres)
+    if _tok(op) == "MACHO":
+        return _macho.canon_model(op, mres)
     return mres
 
 
@@ -74,6 +80,8 @@ def agree(op, il, mres, tag):
         return _pe.equiv(op, il, mres)
     if t == "PGP":
         return _pgp.equiv(op, il, mres)
+    if t == "MACHO":
+        return _macho.equiv(op, il, mres)
     if t == "C11":
         return mres == "safe" and il in ("ok", "err")
     if t in MODEL_TOKENS:
@@ -92,7 +100,7 @@ def agree(op, il, mres, tag):
 
 
 def weight(op):
-    return _pe.weight(op) if _tok(op) == "PE" else 1
+    return _pe.weight(op) if _tok(op) == "PE" else (_macho.weight(op) if _tok(op) == "MACHO" else 1)
 
 
 def nontrivial(op, mres, tag):
@@ -101,6 +109,8 @@ def nontrivial(op, mres, tag):
         return _pe.nontrivial(op, mres, tag)
     if t == "PGP":
         return _pgp.nontrivial(op, mres, tag)
+    if t == "MACHO":
+        return _macho.nontrivial(op, mres, tag)
     if t == "C11":
         f = op.split(" ")
         return len(f) == 5 and (f[4] != "-" or f[3].startswith(("hex:", "appxpe:", "tx:")))
@@ -113,6 +123,8 @@ def branch(op, mres, tag):
         return _pe.branch(op, mres, tag)
     if t == "PGP":
         return _pgp.branch(op, mres, tag)
+    if t == "MACHO":
+        return _macho.branch(op, mres, tag)
     f = op.split(" ")
     if t == "C11":
         return "%s:%s" % (f[1], f[2])
@@ -136,6 +148,11 @@ def predicate(op, il, mres, tag):
         return r
     if t == "PGP" and not il.startswith(BAD):
         return _pgp.predicate("C11", op, il, mres, tag)
+    if t == "MACHO":
+        r = _macho.predicate("C11", op, il, mres, tag)
+        if r is None and il.startswith(("abort", "timeout", "alloc", "harness-error")):
+            return ("Relic.Props.C11 (macho %s)" % il.split(" ")[0], mres, "Mach-O / code-directory parser: " + il)
+        return r
     if il.startswith(BAD) or (t == "C11" and il not in ("ok", "err")):
         what = il.split(" ")[0]
         names = {"panic": "no_panic", "abort": "no_process_abort", "timeout": "terminates", "alloc": "alloc_bounded"}
@@ -155,6 +172,8 @@ def matches_known(k, op, il, mres, tag):
     parts = il.split(" ")
     if _tok(op) == "PE" and il.startswith("panic"):
         return _pe.matches_known(k, op, il, mres, tag)
+    if _tok(op) == "MACHO":
+        return _macho.matches_known(k, op, il, mres, tag)
     if outcome == "alloc" and il == "timeout":
         # a multi-GiB request may also run into the deadline while the pages are being zeroed: same finding, same entry points
         return _entry(op) in ident.get("entries", [])
